@@ -57,6 +57,12 @@ MacrosBoundary ==
     \cup { [op |-> "nest", val |-> I("int32", -1), n |-> n] : n \in {6, 7, 13, 14, 15, 16} }
 
 NoMacros == {}
+\* copy / merge into a nested message that already has one of the source's tags (1 or 300) or none of them (2)
+MacrosSubCopy == { [op |-> "sub_copy", tag |-> tg, tag2 |-> t2, val |-> I("int32", 127), src |-> s] :
+                      tg \in {2, 255, 256}, t2 \in {1, 2, 300}, s \in {SrcMsgA, SrcMsgB} }
+TagsSubCopy == {1, 3}
+ScalarsOne == { [k |-> "bool", b |-> TRUE] }
+SrcsOne == {SrcMsgA}
 TagsOrder == {1, 2}
 PayloadTwo == { [k |-> "bytes", fill |-> 65600], [k |-> "int32", neg |-> FALSE, mag |-> <<0,0,0,0,0,0,0,7>>] }
 
